@@ -1413,7 +1413,7 @@ class Interp(object):
                 st.outcome = "unsupported"
                 st.detail = str(e)
             self._finish(st, done, on_done)
-            if len(done) > self.max_paths:
+            if self.stats["paths"] > self.max_paths:
                 raise Unsupported("more than %d paths" % self.max_paths)
         return done
 
@@ -1430,6 +1430,7 @@ class Interp(object):
             st.detail = "%s [in %s]" % (st.detail, " <- ".join(locs))
         if on_done is not None:
             on_done(st)
+            return
         st.mem = None
         st.frames = None
         done.append(st)
